@@ -20,7 +20,7 @@ from ..core import fhex, unhex, close
 ID = "C16"
 LEAN_MODULE = "EEM.Props.C16"
 BUILD_TARGETS = ["EEM.Props.C16"]
-MODEL_TARGETS = ["EEM.Model.Metrics", "EEM.Gen.SafeDivide", "EEM.Proto"]
+MODEL_TARGETS = ["EEM.Model.Metrics", "EEM.Model.CaltrackMetrics", "EEM.Gen.SafeDivide", "EEM.Proto"]
 DESIGN_REF = "DESIGN.md §5 C16"
 
 
@@ -210,6 +210,66 @@ def run(ctx):
         if len(res["samples"]) < 3:
             res["samples"].append(dict(kind=kind, n=len(o), num_params=k, rmse=float(got["rmse"]), cvrmse=got["cvrmse"]))
 
+    # ---- the CalTRACK-hourly ModelMetrics (hourly_caltrack/metrics.py): two series on one index, NaNs in either
+    from opendsm.eemeter.models.hourly_caltrack.metrics import ModelMetrics
+    CT_FIELDS = ["observed_length", "predicted_length", "merged_length", "rmse", "rmse_adj", "cvrmse", "cvrmse_adj", "nmae", "nmbe",
+                 "r_squared", "autocorr_resid", "n_prime"]
+    for j in range(int((60 if not thorough else 3000) * ctx.get("budget_scale", 1))):
+        n = rng.choice([12, 48, 200])
+        g = np.random.default_rng(rng.randrange(1 << 30))
+        o = 10 + 3 * np.sin(np.arange(n) / 24 * 2 * np.pi) + g.normal(0, 1, n)
+        p = o + np.convolve(g.normal(0, 0.7, n), [0.6, 0.4], "same")
+        kind = ["clean", "prediction_gaps", "usage_gaps", "both_gaps", "net_metered", "biased"][j % 6]
+        if kind in ("prediction_gaps", "both_gaps"):
+            p = np.where(g.random(n) < 0.12, np.nan, p)
+        if kind in ("usage_gaps", "both_gaps"):
+            o = np.where(g.random(n) < 0.12, np.nan, o)
+        if kind == "net_metered":
+            o, p = o - 11.0, p - 11.0
+        if kind == "biased":
+            p = p * 0.8 + 4
+        k = rng.choice([1, 3, 8])
+        idx = pd.date_range("2021-01-01", periods=n, freq="h", tz="UTC")
+        try:
+            mm = ModelMetrics(pd.Series(o, index=idx), pd.Series(p, index=idx), num_parameters=k)
+        except Exception as e:  # noqa
+            res["oracle_failures"].append(dict(clause="caltrack_metrics_raise", kind=kind, error=f"{type(e).__name__}: {str(e)[:100]}"))
+            continue
+        res["evaluations"] += 1
+        got = {f: getattr(mm, f) for f in CT_FIELDS}
+        ok = np.isfinite(o) & np.isfinite(p)
+        oo, pp = o[ok], p[ok]
+        r = pp - oo
+        npairs = int(ok.sum())
+        rho = float(np.corrcoef(r[1:], r[:-1])[0, 1]) if npairs > 2 else float("nan")
+        tb = dict(merged_length=npairs, rmse=float(np.sqrt(np.mean(r ** 2))),
+                  rmse_adj=float(np.sqrt(np.sum(r ** 2) / (npairs - k))) if npairs > k else float("nan"),
+                  cvrmse=float(np.sqrt(np.mean(r ** 2)) / np.mean(oo)), nmbe=float(r.sum() / oo.sum()), nmae=float(np.abs(r).sum() / oo.sum()),
+                  autocorr_resid=rho, n_prime=npairs * (1 - rho) / (1 + rho))
+        for f, v in tb.items():
+            gv = got[f]
+            same = (int(gv) == v) if f == "merged_length" else ((gv != gv and v != v) or close(float(gv), v, 1e-8) or abs(float(gv) - v) < 1e-9)
+            if same:
+                continue
+            f_ = dict(clause="caltrack_statistic_differs_from_textbook", statistic=f, reported=float(gv), textbook_on_finite_pairs=v, kind=kind,
+                      observed_values=int(np.isfinite(o).sum()), finite_pairs=npairs, negative_observed=int((oo < 0).sum()))
+            if f == "n_prime" and int(np.isfinite(o).sum()) != npairs and "C16-F3" in findings:
+                fid = "C16-F3"          # observed values without a prediction are counted (input-level predicate)
+            elif f == "cvrmse" and (oo < 0).any() and "C16-F4" in findings:
+                fid = "C16-F4"          # negative observed values: the class divides by the mean of absolute values
+            else:
+                fid = None
+            if fid:
+                d = res["finding_instances"].setdefault(fid, dict(count=0, example=None))
+                d["count"] += 1
+                d["example"] = d["example"] or f_
+            else:
+                res["oracle_failures"].append(f_)
+                break
+        sigs.add(("ctmetrics", kind, n, npairs > k))
+        lines.append(f"ctmetrics {k} " + " ".join(f"{tok(a)} {tok(b)}" for a, b in zip(o, p)))
+        metas.append(("ctmetrics", kind, got, dict(n=n, k=k)))
+
     # ---- _safe_divide directly (T1 kernel), boundary-biased
     vals = [0.0, 1e-3, 1e-3 + 1e-12, 9.999e-4, 1e-2, 1e-2 + 1e-12, 0.00999, -0.5, 0.5, 5.0, -1e-3, 1e9]
     for a in vals:
@@ -295,6 +355,26 @@ def run(ctx):
                                                              lean=lv if lv in (None, "none") else unhex(lv),
                                                              impl=None if g is None else float(g), case=d))
                             break
+            elif meta[0] == "ctmetrics":
+                _, kind, got, d = meta
+                kv = dict(x.split("=", 1) for x in out[3:].split(" ")) if out.startswith("ok ") and out != "ok empty" else {}
+                for f, gv in got.items():
+                    lv = kv.get(f)
+                    if lv is None:
+                        res["disagreements"].append(dict(op="ctmetrics", field=f, lean=out[:200], case=d))
+                        break
+                    if f.endswith("_length"):
+                        same = int(lv) == int(gv)
+                    elif lv == "none":
+                        same = gv != gv                      # the class reports NaN where the model has no value
+                    else:
+                        a, b = unhex(lv), float(gv)
+                        same = (a != a and b != b) or close(a, b, 1e-7) or abs(a - b) <= 1e-9 or \
+                            (f in ("autocorr_resid", "n_prime", "r_squared") and (a != a or b != b or abs(a - b) <= 1e-6 * max(1.0, abs(b)))) or \
+                            (a in (float("inf"), float("-inf")) or b in (float("inf"), float("-inf")))
+                    if not same:
+                        res["disagreements"].append(dict(op="ctmetrics", kind=kind, field=f, lean=lv if lv == "none" else unhex(lv), impl=float(gv), case=d))
+                        break
             elif meta[0] == "safe_divide":
                 _, a, b, g = meta
                 exp = "ok none" if g is None else "ok " + (fhex(g) if g == g else "nan")
@@ -435,6 +515,25 @@ def hourly_fit_oracle(rng, adaptive, mdth=None):
 def replay_finding(entry):
     from opendsm.common.metrics import _safe_divide
     w = entry["witness"]
+    if entry["id"] in ("C16-F3", "C16-F4"):
+        # fixed witnesses of the CalTRACK-hourly ModelMetrics deviations
+        from opendsm.eemeter.models.hourly_caltrack.metrics import ModelMetrics
+        n = 200
+        g = np.random.default_rng(7)
+        idx = pd.date_range("2021-01-01", periods=n, freq="h", tz="UTC")
+        o = 10 + 3 * np.sin(np.arange(n) / 24 * 2 * np.pi) + g.normal(0, 1, n)
+        p = o + np.convolve(g.normal(0, 0.7, n), [0.6, 0.4], "same")
+        if entry["id"] == "C16-F3":
+            p = np.where(np.arange(n) % 8 == 3, np.nan, p)
+        else:
+            o, p = o - 11.0, p - 11.0
+        mm = ModelMetrics(pd.Series(o, index=idx), pd.Series(p, index=idx), num_parameters=3)
+        ok = np.isfinite(o) & np.isfinite(p)
+        r = (p - o)[ok]
+        if entry["id"] == "C16-F3":
+            rho = float(np.corrcoef(r[1:], r[:-1])[0, 1])
+            return not close(float(mm.n_prime), int(ok.sum()) * (1 - rho) / (1 + rho), 1e-8)
+        return not close(float(mm.cvrmse), float(np.sqrt(np.mean(r ** 2)) / np.mean(o[ok])), 1e-8)
     g = _safe_divide(w["numerator"], w["denominator"], 1e-3)
     return g is not None
 
@@ -451,7 +550,11 @@ LEVEL_TEXT = ("Lean 4 theorems over R about an executable model of BaselineMetri
               "rmse_adj^2*ddof = sse, n*mbe = sum(obs) - sum(pred), |mbe| <= mae <= rmse (Cauchy-Schwarz), ddof >= 1, the statistics ignore "
               "non-finite rows, the exact condition under which a ratio is undefined, and the two poor-fit gates as decision theorems. "
               "The model is tied to the real classes by a differential run on Float; the stored hourly metrics are compared with the "
-              "metrics of predict(baseline) on non-interpolated hours on real fits (both fit paths).")
+              "metrics of predict(baseline) on non-interpolated hours on real fits (both fit paths, min_daily_training_hours 0/default/20); daily "
+              "fits with the approved settings on heavy-tailed meters compare the reported error with predict(baseline). The CalTRACK-hourly "
+              "ModelMetrics (hourly_caltrack/metrics.py) has its own hand model (EEM.Model.CaltrackMetrics) with theorems stating exactly when its "
+              "CVRMSE and autocorrelation-corrected n are the textbook values (non-negative usage; every observed value predicted) - the "
+              "complements are findings C16-F4 / C16-F3 - and is run against the real class on series with gaps in either input.")
 LEVEL_NOTE = ("Trusted: Lean kernel + standard axioms; py2lean (for _safe_divide and the metric-formula extractor; `x ** 0.5` is read as sqrt); the base "
               "quantities pandas computes (n, column mean/IQR/sum of squares, MAE, R^2, n') enter the generated formulas as fields of a record and are tied "
               "to the class by T2; hand model of the pandas reductions (validated by T2 at "
